@@ -1030,11 +1030,13 @@ async fn crash_case_async(case: u64, rng: &mut Rng, st: &mut Stats, enc: bool, n
         st.distinct(vcore::fnv_str(&format!("{}|{}|{}", cfg.name(), cfg.chunk, shape.join(";"))));
     }
     st.max("max_crash_points_per_sequence", crash_points as u64);
-    st.sample(|| {
-        json!({"monitor": "crash_enumeration", "wrapper": cfg.name(), "chunk_size": cfg.chunk,
+    if case < 2 {
+        st.sample(|| {
+            json!({"monitor": "crash_enumeration", "wrapper": cfg.name(), "chunk_size": cfg.chunk,
                "legacy_keys": n_legacy, "crash_points": crash_points,
                "operations": ops.iter().take(14).map(|o| format!("[{}..{}] {} -> {}", o.lo, o.hi, o.op.describe(), o.result)).collect::<Vec<_>>()})
-    });
+        });
+    }
 }
 
 // ---------------------------------------------------------------------------------------------
@@ -1588,12 +1590,14 @@ fn gc_case(case: u64, rng: &mut Rng, st: &mut Stats, dfs_budget: u64, rand_runs:
     }
     st.count(&format!("gc_scenarios:{}", sc.cfg.name()));
     st.distinct(vcore::hash_debug(&(&sc.writers, &sc.init, sc.cfg.enc, &sc.planted)));
-    st.sample(|| {
-        json!({"monitor": "gc_interleaving", "wrapper": sc.cfg.name(),
+    if case < 2 {
+        st.sample(|| {
+            json!({"monitor": "gc_interleaving", "wrapper": sc.cfg.name(),
                "writers": sc.writers.iter().map(|(o, p)| format!("{} [{p:?}]", o.describe())).collect::<Vec<_>>(),
                "stale_generations_planted": sc.planted.len(), "real_stale_generations": sc.leak_old.len(),
                "schedules": runs, "exhaustive": exhausted})
-    });
+        });
+    }
 }
 
 // ---------------------------------------------------------------------------------------------
